@@ -892,6 +892,10 @@ func (r rbcEncoding) Payload() []byte {
 }
 
 func (r rbcEncoding) Ack() (digest []byte, sender uint16, msgRound uint8, err error) {
+	if len(r) == 0 {
+		return nil, 0, 0, fmt.Errorf("message is empty")
+	}
+
 	// In ack messages, the MSB of the first byte is 0
 	if r[0]>>7 != 0 {
 		return nil, 0, 0, nil
